@@ -14,11 +14,24 @@ pub fn vx_vec_with_capacity<T>(n: usize) -> (r: Vec<T>)
     ensures r@.len() == 0
 { Vec::with_capacity(n) }
 // ---- serde (trusted model of the visitor protocol: the size hint is unconstrained, i.e. attacker controlled)
-pub mod serde { pub mod de {
+//      Progress: `remaining()` is the unread input; an element that was accepted (Ok(Some)) consumed at least one byte of it --
+//      which is true of a sequence accessor exactly when the element's `Deserialize` impl consumes input whenever it returns Ok
+//      (the contract on `Deserialize::deserialize` below, which every implementation extracted from /repo has to meet).
+pub mod serde { use vstd::prelude::*;
+    pub trait Deserializer<'de>: Sized { type Error; spec fn consumes(&self) -> bool; }
+    pub trait Deserialize<'de>: Sized {
+        fn deserialize<D: Deserializer<'de>>(de: D) -> (r: Result<Self, D::Error>)
+            ensures r is Ok ==> de.consumes();
+    }
+    impl<'de> Deserialize<'de> for u8 { #[verifier::external_body] fn deserialize<D: Deserializer<'de>>(de: D) -> (r: Result<Self, D::Error>) { unimplemented!() } }
+  pub mod de { use vstd::prelude::*;
+    pub use super::Deserialize;
     pub trait SeqAccess<'de> {
         type Error;
+        spec fn remaining(&self) -> nat;
         fn size_hint(&self) -> Option<usize>;
-        fn next_element<T>(&mut self) -> Result<Option<T>, Self::Error>;
+        fn next_element<T: Deserialize<'de>>(&mut self) -> (r: Result<Option<T>, Self::Error>)
+            ensures final(self).remaining() <= old(self).remaining(), r matches Ok(Some(_x)) ==> final(self).remaining() < old(self).remaining();
     }
     pub trait Visitor<'de>: Sized {
         type Value;
@@ -26,6 +39,15 @@ pub mod serde { pub mod de {
     }
 } }
 use serde::de::Visitor;
+use serde::{Deserialize, Deserializer};
+// ciborium::value::Value as a buffer: reading a whole value from any self-describing deserializer (consumes input when it returns Ok),
+// then interpreting it as a T (consumes nothing further)
+pub mod ciborium { pub mod value { use vstd::prelude::*; use crate::serde::{Deserialize, Deserializer};
+    #[verifier::external_body] pub struct Value { _p: u8 }
+    pub struct ValueError;
+    impl<'de> Deserialize<'de> for Value { #[verifier::external_body] fn deserialize<D: Deserializer<'de>>(de: D) -> (r: Result<Self, D::Error>) { unimplemented!() } }
+    impl Value { #[verifier::external_body] pub fn deserialized<'de, T: Deserialize<'de>>(&self) -> Result<T, ValueError> { unimplemented!() } }
+} }
 pub struct Bytes(pub Vec<u8>);
 pub struct Base64Visitor;
 //@ source b passkey-types/src/utils/bytes.rs
@@ -39,8 +61,9 @@ impl<'de> Visitor<'de> for Base64Visitor {
 }
 //@ extract s enum PossiblyUnknown
 //@   noderive
+//@ extract s impl Deserialize for PossiblyUnknown
 pub struct IgnoreUnknown<T>(pub std::marker::PhantomData<T>);
-impl<'d, T> Visitor<'d> for IgnoreUnknown<T> {
+impl<'d, T: Deserialize<'d>> Visitor<'d> for IgnoreUnknown<T> {
     type Value = Option<Vec<T>>;
 //@ extract s fn visit_seq
 //@   deep
